@@ -311,13 +311,16 @@ def judge(res, cs, cr):
                 built_from.pop(pid, None)
                 continue
             parents = [snap['picts'].get(str(x), {}) for x in p['parents']]
-            now = [fingerprint(x.get('announced')) for x in parents]
+            # what the result was built from is the parents' content at that moment (it may never have been announced: a
+            # document closed with an unsaved edit); what must be noticed is an announcement made AFTER the build
+            now = [(fingerprint(x.get('announced')), x.get('announced_count', 0)) for x in parents]
+            built = [(fingerprint(x.get('data')), x.get('announced_count', 0)) for x in parents]
             was = before['picts'].get(pid) if before is not None else None
             # the harness document counts result writes: a re-execution is seen even when it reproduces the same content
             rebuilt = (was is None or was['status'] != 'done' or was.get('doc_writes') != p.get('doc_writes') or was.get('doc') != p.get('doc')
                        or pid not in built_from)
             if rebuilt:
-                built_from[pid] = now
+                built_from[pid] = built
                 continue
             if not all(x.get('connected') for x in parents):
                 # a parent document the schema is not connected to cannot announce anything to it; staleness is
@@ -326,10 +329,11 @@ def judge(res, cs, cr):
                 continue
             res.count('judged')
             res.cover('done-checked-against-announced-parents')
-            if now != built_from[pid]:
-                which = [x for x, (a, b) in zip(p['parents'], zip(now, built_from[pid])) if a != b]
-                changed = [sorted(set(a or ()) ^ set(b or ())) for a, b in zip(now, built_from[pid]) if a != b]
-                bad.append(('done-but-stale', f"operation {pid} still reports done although the formal content announced by its parent(s) {which} changed since it was built: {changed[:1]}"))
+            stale = [(x, a, b) for x, a, b in zip(p['parents'], now, built_from[pid]) if a[1] > b[1] and a[0] is not None and a[0] != b[0]]
+            if stale:
+                which = [x for x, _a, _b in stale]
+                changed = [sorted(set(a[0] or ()) ^ set(b[0] or ())) for _x, a, b in stale]
+                bad.append(('done-but-stale', f"operation {pid} still reports done although its parent(s) {which} announced a change of their formal content after it was built: {changed[:1]}"))
         res.count('snapshots')
         if bad:
             what, msg = bad[0]
